@@ -26,6 +26,16 @@ CHECKS.update({
             "Bounded symbolic model checking: for every trie of the family and a symbolic nibble path of length <= 8, traverse returns exactly the canonical node / blank / TraversedPartialPath description (incl. simulated node and raw body); traverse_from composes with traverse at every split position with <= 1 db read per hop.", X_NOTE, "4/C08"),
     "C10": ("X", "symbolic execution (CrossHair+z3): symbolic successor query through NodeIterator.next; keys/items/values/nodes compared with the sorted contents and the canonical pre-order",
             "Bounded symbolic model checking: next(k) equals the strict successor for a symbolic byte string k on every trie of the family; keys/items/values are exactly the sorted contents; nodes() is the pre-order of the canonical trie and agrees with traverse().", X_NOTE, "4/C10"),
+    "C04": ("X", "symbolic execution (CrossHair+z3): operation chosen by symbolic indices, failing database write position a symbolic int decided by the solver at every write; append-only / content-addressed / old-roots-readable checked on each path",
+            "Bounded symbolic model checking with solver-enumerated fault positions: two tries share one database; every pool operation (direct or one-op batch) with every failing write position leaves all earlier entries intact, new entries hash-keyed, every earlier root (fresh trie, at_root, second view) fully readable, the current root readable.", X_NOTE, "4/C04"),
+    "C07": ("X", "symbolic execution (CrossHair+z3): one symbolic bool per node body, decided lazily by the solver at the first read of that node; reported hash / prefix / atomicity / retry convergence checked against the canonical-tree oracle",
+            "Bounded symbolic model checking over all subsets of missing nodes (split lazily by the solver along each operation's route): get/exists/set/delete/traverse/traverse_from, inside and outside squash_changes, prune on/off, with the retry-after-supplying-the-reported-node loop.", X_NOTE, "4/C07"),
+    "C09": ("X", "symbolic execution (CrossHair+z3): the walk schedule (fog query kind, query key, interleaved mutations) is a symbolic list exhausted by the solver; each schedule runs natively against the real trie/fog/cache",
+            "Bounded symbolic model checking over schedules of <=3 (4) events: termination within a step bound, exact contents met on an unchanging trie, every constant key met and nothing met that was never stored under mutations; 4 navigation configurations.", X_NOTE, "4/C09"),
+    "C11": ("X", "symbolic execution (CrossHair+z3): second operation, its arguments and query keys are symbolic indices exhausted by the solver from (a sample of) all antichains reachable by one explore(); set-model oracle",
+            "Bounded symbolic model checking of HexaryTrieFog against a set model: explore / mark_all_complete / commuting explorations / mixed-length rejection / nearest_unknown / nearest_right / immutability / serialisation round trip.", X_NOTE, "4/C11"),
+    "C18": ("X", "symbolic execution (CrossHair+z3): the ill-typed argument is a symbolic value of a union type (type and value chosen by the solver), wrong sizes are symbolic lengths / ints, executed through every listed entry point",
+            "Bounded symbolic model checking: 49 + 13 + 11 entry points; refusal with the stated exception type, snapshot equality of all structures afterwards, and a fixed valid continuation giving the results of a twin run without the refused call.", X_NOTE, "4/C18"),
 })
 NOT_YET = "check not built yet in this round (see DESIGN.md section 4 for the plan); not claimed"
 
